@@ -405,6 +405,17 @@ func (x *Exec) nilness(st *State, v Val) T {
 }
 
 func (x *Exec) cmpNil(st *State, op token.Token, a, b Val) Val {
+	if oa, ok := a.(*OpaqueV); ok {
+		if _, isNil := b.(NilV); !isNil {
+			// identity of opaque values is unknown
+			_ = oa
+			r := x.e.fresh("opaqueeq", SBool)
+			if op == token.NEQ {
+				return Not(r)
+			}
+			return r
+		}
+	}
 	_, an := a.(NilV)
 	_, bn := b.(NilV)
 	var r T
@@ -950,6 +961,7 @@ var harmlessPrefixes = []string{
 	"(github.com/cosmos/cosmos-sdk/types.Context).EventManager", "(github.com/cosmos/cosmos-sdk/types.Context).Logger", "strings.Join", "github.com/armon/go-metrics", "github.com/cosmos/cosmos-sdk/telemetry",
 	"(github.com/cosmos/cosmos-sdk/types.Coins).String", "(github.com/cosmos/cosmos-sdk/types.Coin).String", "(github.com/cosmos/cosmos-sdk/types.Int).String", "(github.com/cosmos/cosmos-sdk/types.Dec).String",
 	"(github.com/cosmos/cosmos-sdk/types.Events)", "encoding/hex.EncodeToString",
+	"(github.com/MinterTeam/mhub2/module/x/mhub2/types.MhubHooks)",
 }
 
 func (x *Exec) harmlessCall(st *State, name string, ci *callInfo) (Val, bool) {
